@@ -292,6 +292,10 @@ def run_case(ctx, rng, idx):
         # the same source again after an in-place edit that keeps the node and hyperedge counts
         from ..mutate import same_count_edit
 
+        try:
+            h.subhypergraph_largest_component()  # (a single-entry memo must hold THIS query when the edit happens)
+        except Exception:
+            pass
         if not getattr(run_case, "_in_second_pass", False) and same_count_edit(rng, h):
             ctx.event("re-evaluated-after-in-place-edit")
             S2 = observe(h)
